@@ -74,6 +74,19 @@ theorem createMassAction_clears (m m' : MState α) (r p : List String) (k : KArg
     · cases h
     · cases h; rfl
 
+/-- a delayed reaction invalidates the model (so its delay object reaches the vector the delay simulators read). -/
+theorem createDelayed_clears (m m' : MState α) (r p : List String) (k : KArg α) (dp : List String) (tau : String)
+    (h : m.createDelayed r p k dp tau = .ok m') : m'.initialized = false := by
+  unfold MState.createDelayed at h
+  simp only [bind, Except.bind] at h
+  split at h
+  · cases h
+  · split at h
+    · cases h
+    · split at h
+      · cases h
+      · cases h; rfl
+
 theorem setParameter_flag (m m' : MState α) (p : String) (v : α) (h : m.setParameter p v = .ok m') :
     m'.initialized = m.initialized ∨ m'.initialized = false := by
   unfold MState.setParameter at h
@@ -103,12 +116,13 @@ theorem createParameter_clears (m m' : MState α) (p : String) (v : α) (h : m.c
 /-- **every structural edit clears `initialized`** (species, parameter, reaction, rule). -/
 theorem structural_edit_clears (m m' : MState α) (op : MOp α) (h : m.step op = .ok m')
     (hop : match op with
-      | .addSpecies _ | .createParameter _ _ | .createMassAction _ _ _ | .createAdditiveRule _ _ => True
+      | .addSpecies _ | .createParameter _ _ | .createMassAction _ _ _ | .createDelayed _ _ _ _ _ | .createAdditiveRule _ _ => True
       | _ => False) : m'.initialized = false := by
   cases op with
   | addSpecies s => simp only [MState.step] at h; cases h; exact addSpecies_clears m s
   | createParameter p v => exact createParameter_clears m m' p v h
   | createMassAction r p k => exact createMassAction_clears m m' r p k h
+  | createDelayed r p k dp tau => exact createDelayed_clears m m' r p k dp tau h
   | createAdditiveRule d ss => exact (createAdditiveRule_clears m m' d ss h).1
   | setParameter _ _ => simp at hop
   | setSpecies _ => simp at hop
